@@ -126,14 +126,10 @@ def ustarSplit (pp : List Nat) : NameSplit :=
       else if p > ustar_prefix_size then .tooLong        -- prefix too long
       else .split p
 
-/-- One numeric field: `if (format_number(v, h + off, size, max, strict)) ret = FAILED`. -/
-def putNum (hf : List Nat × Bool) (v : Int) (off s max : Nat) (strict : Bool) : List Nat × Bool :=
-  let r := ustarFormatNumber v s max strict
-  (poke hf.1 off r.2, hf.2 || r.1)
-
-/-- A string field limited to `lim` bytes; longer → truncated, `fail` says whether that is an error. -/
-def putStr (hf : List Nat × Bool) (s : List Nat) (off lim : Nat) (fail : Bool) : List Nat × Bool :=
-  if s.length > lim then (poke hf.1 off (s.take lim), hf.2 || fail) else (poke hf.1 off s, hf.2)
+/-- A sequence of `memcpy(h + off, bytes, n)` into the block, in order. -/
+def applyWrites (h : List Nat) : List (Nat × List Nat) → List Nat
+  | [] => h
+  | w :: ws => applyWrites (poke h w.1 w.2) ws
 
 def ustarTypeflag : FType → Option Nat
   | .reg => some 48 | .lnk => some 50 | .chr => some 51 | .blk => some 52
@@ -146,37 +142,76 @@ def ustarChecksum (h : List Nat) : List Nat :=
   let h := poke h (ustar_checksum_offset + 6) [0]
   poke h ustar_checksum_offset (ustarFormatOctal sum 6).2
 
+/-- The link name a tar header carries: the hard link target if there is one, else the symlink target. -/
+def tarLink (e : Entry) : List Nat := if e.hard ≠ [] then e.hard else e.sym
+
+/-- The type flag byte: explicit `tartype`, else '1' for a hard link, else by file type;
+`none` = unsupported type (the template's '0' stays). -/
+def ustarType (e : Entry) (tartype : Option Nat) : Option Nat :=
+  match tartype with
+  | some t => some t
+  | none => if e.hard ≠ [] then some 49 else ustarTypeflag e.ftype
+
+/-- One numeric field: value, offset, size, max size, and whether the C formats it at all
+(the rdev fields only for character and block devices). -/
+structure NumField where
+  v : Int
+  off : Nat
+  size : Nat
+  max : Nat
+  active : Bool := true
+
+/-- The numeric fields of the header in the order the C formats them. -/
+def ustarNumFields (e : Entry) (size : Int) : List NumField :=
+  let dev : Bool := e.ftype = .blk ∨ e.ftype = .chr
+  [ ⟨((e.perm % 4096 : Nat) : Int), ustar_mode_offset, ustar_mode_size, ustar_mode_max_size, true⟩,
+    ⟨e.uid, ustar_uid_offset, ustar_uid_size, ustar_uid_max_size, true⟩,
+    ⟨e.gid, ustar_gid_offset, ustar_gid_size, ustar_gid_max_size, true⟩,
+    ⟨size, ustar_size_offset, ustar_size_size, ustar_size_max_size, true⟩,
+    ⟨e.mtime, ustar_mtime_offset, ustar_mtime_size, ustar_mtime_max_size, true⟩,
+    ⟨e.rdevmajor, ustar_rdevmajor_offset, ustar_rdevmajor_size, ustar_rdevmajor_max_size, dev⟩,
+    ⟨e.rdevminor, ustar_rdevminor_offset, ustar_rdevminor_size, ustar_rdevminor_max_size, dev⟩ ]
+
+/-- What one numeric field stores (nothing when the C skips it). -/
+def NumField.bytes (f : NumField) (strict : Bool) : List Nat :=
+  if f.active then (ustarFormatNumber f.v f.size f.max strict).2 else []
+/-- `format_number` reported an overflow for this field. -/
+def NumField.failed (f : NumField) (strict : Bool) : Bool :=
+  f.active && (ustarFormatNumber f.v f.size f.max strict).1
+
+/-- Every `memcpy` / field store of `__archive_write_format_header_ustar` before the checksum,
+in program order, always one (possibly empty = nothing stored) write per field: prefix, name,
+linkname, uname, gname, the seven numeric fields, typeflag.  Strings longer than their field
+are cut to the field (and make the call fail, see `ustarFailed`). -/
+def ustarWrites (e : Entry) (path : List Nat) (size : Int) (tartype : Option Nat) (strict : Bool) :
+    List (Nat × List Nat) :=
+  [ (ustar_prefix_offset, match ustarSplit path with | .split p => path.take p | _ => []),
+    (ustar_name_offset, match ustarSplit path with
+                        | .whole => path | .split p => path.drop (p + 1) | .tooLong => []),
+    (ustar_linkname_offset, (tarLink e).take ustar_linkname_size),
+    (ustar_uname_offset, e.uname.take ustar_uname_size),
+    (ustar_gname_offset, e.gname.take ustar_gname_size) ] ++
+  (ustarNumFields e size).map (fun f => (f.off, f.bytes strict)) ++
+  [ (ustar_typeflag_offset, match ustarType e tartype with | some t => [t] | none => []) ]
+
+/-- `ret == ARCHIVE_FAILED` at the end of `__archive_write_format_header_ustar`: some
+`if (…) { archive_set_error(…); ret = ARCHIVE_FAILED; }` branch was taken. -/
+def ustarFailed (e : Entry) (path : List Nat) (size : Int) (tartype : Option Nat) (strict : Bool) : Bool :=
+  ustarSplit path == .tooLong                                       -- "Pathname too long"
+  || decide ((tarLink e).length > ustar_linkname_size)              -- "Link contents too long"
+  || (decide (e.uname.length > ustar_uname_size) && tartype != some 120)   -- "Username too long"
+  || (decide (e.gname.length > ustar_gname_size) && tartype != some 120)   -- "Group name too long"
+  || (ustarNumFields e size).any (fun f => f.failed strict)         -- "Numeric … too large"
+  || (ustarType e tartype).isNone                                   -- unsupported file type
+
 /-- `__archive_write_format_header_ustar(a, h, entry, tartype, strict, sconv)`.
-`path` is the pathname after the directory fix-up; returns (failed?, 512 bytes). -/
+`path` is the pathname after the directory fix-up; returns (failed?, 512 bytes).  The C
+interleaves the stores and the `ret = ARCHIVE_FAILED` assignments field by field; the
+fields are distinct, so collecting them separately is the same function. -/
 def ustarFormatHeader (e : Entry) (path : List Nat) (size : Int) (tartype : Option Nat) (strict : Bool) :
     Bool × List Nat :=
-  let hf : List Nat × Bool := (ustar_template, false)
-  let hf := match ustarSplit path with
-    | .whole => (poke hf.1 ustar_name_offset path, hf.2)
-    | .split p => (poke (poke hf.1 ustar_prefix_offset (path.take p)) ustar_name_offset (path.drop (p + 1)), hf.2)
-    | .tooLong => (hf.1, true)
-  let mytartype : Option Nat := if e.hard ≠ [] then some 49 else none
-  let link := if e.hard ≠ [] then e.hard else e.sym
-  let hf := putStr hf link ustar_linkname_offset ustar_linkname_size true
-  let hf := putStr hf e.uname ustar_uname_offset ustar_uname_size (tartype ≠ some 120)
-  let hf := putStr hf e.gname ustar_gname_offset ustar_gname_size (tartype ≠ some 120)
-  let hf := putNum hf (e.perm % 4096) ustar_mode_offset ustar_mode_size ustar_mode_max_size strict
-  let hf := putNum hf e.uid ustar_uid_offset ustar_uid_size ustar_uid_max_size strict
-  let hf := putNum hf e.gid ustar_gid_offset ustar_gid_size ustar_gid_max_size strict
-  let hf := putNum hf size ustar_size_offset ustar_size_size ustar_size_max_size strict
-  let hf := putNum hf e.mtime ustar_mtime_offset ustar_mtime_size ustar_mtime_max_size strict
-  let hf := if e.ftype = .blk ∨ e.ftype = .chr then
-      let hf := putNum hf e.rdevmajor ustar_rdevmajor_offset ustar_rdevmajor_size ustar_rdevmajor_max_size strict
-      putNum hf e.rdevminor ustar_rdevminor_offset ustar_rdevminor_size ustar_rdevminor_max_size strict
-    else hf
-  let hf := match tartype with
-    | some t => (poke hf.1 ustar_typeflag_offset [t], hf.2)
-    | none => match mytartype with
-      | some t => (poke hf.1 ustar_typeflag_offset [t], hf.2)
-      | none => match ustarTypeflag e.ftype with
-        | some t => (poke hf.1 ustar_typeflag_offset [t], hf.2)
-        | none => (hf.1, true)      -- AE_IFSOCK and unknown: unsupported
-  (hf.2, ustarChecksum hf.1)
+  (ustarFailed e path size tartype strict,
+   ustarChecksum (applyWrites ustar_template (ustarWrites e path size tartype strict)))
 
 /-- Per-archive writer state shared by the modelled formats. -/
 structure WState where
